@@ -305,6 +305,33 @@ def T_inexact(rng, v=0):
     return p, dict(points=[x0, x1, xs], exprs=[fx - fs], funcs=[f])
 
 
+def T_nonsmooth(rng, v=0):
+    """non-differentiable classes with single-sample conditions and finite parameters; a subgradient requested twice at one named point"""
+    from PEPit import PEP
+    from PEPit.functions import ConvexSupportFunction, ConvexLipschitzFunction, ConvexIndicatorFunction, SmoothStronglyConvexFunction
+    p = PEP()
+    kind = ['support', 'lipschitz'][v % 2]
+    f = p.declare_function(SmoothStronglyConvexFunction, mu=0.1, L=1.)
+    if kind == 'support':
+        h = p.declare_function(ConvexSupportFunction, M=2.)
+    elif kind == 'lipschitz':
+        h = p.declare_function(ConvexLipschitzFunction, M=2.)
+    else:
+        h = p.declare_function(ConvexIndicatorFunction, D=3.)
+    F = f + h
+    xs = F.stationary_point()
+    x0 = p.set_initial_point(name='x0')
+    p.set_initial_condition((x0 - xs) ** 2 <= 1)
+    g1 = h.subgradient(x0)
+    g2 = h.subgradient(x0)             # a second subgradient at the same (named) point
+    x1 = x0 - 0.5 * (f.gradient(x0) + g1)
+    if kind == 'indicator':
+        p.set_performance_metric((x1 - xs) ** 2)        # (normal cones are unbounded: no term in the subgradients)
+    else:
+        p.set_performance_metric((x1 - xs) ** 2 + 0.1 * (g1 - g2) ** 2)
+    return p, dict(points=[x0, x1, xs], exprs=[(x1 - xs) ** 2], funcs=[f, h, F], kind=kind)
+
+
 def T_unbounded(rng, v=0):
     from PEPit import PEP
     from PEPit.functions import ConvexFunction
@@ -321,7 +348,7 @@ def T_unbounded(rng, v=0):
     return p, dict(points=[x0, x1, x0 - x1], exprs=[f(x1), f(x1) - f(xs)], funcs=[f], constraints=[c], no_value=True, kind=kind)
 
 
-TEMPLATES = [T_gd_ssc, T_metrics, T_prox_convex, T_user_lmi, T_asym_lmi, T_quadratic, T_composite, T_qg, T_operator, T_blocks, T_linear, T_inexact]
+TEMPLATES = [T_gd_ssc, T_metrics, T_prox_convex, T_user_lmi, T_asym_lmi, T_quadratic, T_composite, T_qg, T_operator, T_blocks, T_linear, T_inexact, T_nonsmooth]
 ALL = {t.__name__: t for t in TEMPLATES + [T_unbounded, T_scaled]}
 
 
